@@ -620,6 +620,8 @@ DEC_METHODS = {"eq_zero": ("bool", "Model.eqZero", False), "eq_one": ("bool", "M
 LIT_METHODS = {"is_empty": "lit_is_empty", "len": "lit_len", "skip_n": "lit_skip_n", "skip_1": "lit_skip_1", "first": "lit_first",
                "first_eq": "lit_first_eq", "skip_leading_zeroes": "lit_skip_leading_zeroes", "read_u64": "lit_read_u64",
                "read_u64_unchecked": "lit_read_u64_unchecked", "accum_coeff": "lit_accum_coeff", "accum_exp": "lit_accum_exp"}
+# methods of `Decimal` that resolve to translated functions: name -> (translated function, result type)
+DEC_K_METHODS = {"partial_cmp": ("decimal_partial_cmp", ("Option", "Ordering")), "abs": ("decimal_abs", "Decimal")}
 STRUCT_FIELDS = {"coeff": ("i128", "coeff"), "n_frac_digits": ("u8", "nfrac")}
 MODE_NAMES = {"Round05Up": ".r05up", "RoundCeiling": ".ceil", "RoundDown": ".down", "RoundFloor": ".floor",
               "RoundHalfDown": ".hdown", "RoundHalfEven": ".heven", "RoundHalfUp": ".hup", "RoundUp": ".up"}
@@ -713,7 +715,7 @@ class Emit:
                 return "Decimal"
             raise Unsupported(f"unknown name {e[1]}")
         if k == "cast":
-            return e[2]
+            return self.self_ty if e[2] == "Self" and self.self_ty else e[2]
         if k in ("neg",):
             return self.type_of(e[1], hint)
         if k == "not":
@@ -733,6 +735,12 @@ class Emit:
             m = e[2]
             if m == "to_string":
                 return "String"
+            if m == "unwrap" and isinstance(rt, tuple) and rt[0] == "Option":
+                return rt[1]
+            if rt == "Decimal" and m in DEC_K_METHODS and DEC_K_METHODS[m][0] in self.sigs:
+                return DEC_K_METHODS[m][1]
+            if m == "as_str":
+                return "str"
             if rt == "Formatter" and m == "precision":
                 return ("Option", "usize")
             if rt == "Formatter" and m == "pad_integral":
@@ -804,6 +812,8 @@ class Emit:
                 return rt[1][-1] if isinstance(rt, tuple) and rt[0] == "tuple" else rt
             if e[1] == ["AsciiDecLit", "new"]:
                 return "AsciiDecLit"
+            if e[1] == ["Self", "from_str"] and "decimal_from_str" in self.sigs:
+                return self.sigs["decimal_from_str"][1]
             if n in self.sigs:
                 return self.sigs[n][1]
             if n in EXTERNAL:
@@ -979,11 +989,16 @@ class Emit:
                 ls += l; xs.append(v)
             return ls, "(" + ", ".join(xs) + ")"
         if k == "cast":
+            if e[2] == "Self" and self.self_ty:
+                e = ("cast", e[1], self.self_ty)
             src_t = self.type_of(e[1], e[2])
-            ls, x = self.ex(e[1], e[2])
+            ls, x = self.ex(e[1], e[2] if e[2] not in FLOAT_BITS else None)
             dst = e[2]
             if src_t == dst:
                 return ls, x
+            if dst in FLOAT_BITS and src_t == "i128":
+                # `i128 as f64` / `as f32`: assumed round-to-nearest-even (the model's `i128AsFloat`)
+                return ls, f"(Model.i128AsFloat Spec.FloatFmt.{dst} ({x}))"
             if src_t == "bool":
                 return ls, f"(if ({x}) = true then 1 else 0)"
             # widening unsigned → unsigned, or any value known to fit keeps its value; we always emit the wrap
@@ -1256,6 +1271,14 @@ class Emit:
                 raise Unsupported("effect inside a closure")
             return lr, f"(if {xr} = true then some ({xb}) else none)"
         t = self.type_of(recv, hint)
+        if m == "unwrap" and not args and isinstance(t, tuple) and t[0] == "Option":
+            lr, xr = self.ex(recv, t)
+            v = self.fresh()
+            return lr + [f"let {v} ← (match {xr} with | some v => pure v | none => Outcome.panic .unwrap : Outcome {lean_ty(t[1])})"], v
+        if t == "Decimal" and m in DEC_K_METHODS and DEC_K_METHODS[m][0] in self.sigs:
+            return self.call(("call", [DEC_K_METHODS[m][0]], [recv] + list(args)), hint)
+        if m == "as_str" and not args and t in ("String", "str"):
+            return self.ex(recv, t)
         if m == "to_string" and not args and isinstance(t, str) and t in INT_TYPES and signed(t):
             lr, xr = self.ex(recv, t)
             return lr, f"(Model.fmtInt ({xr}))"
@@ -1431,6 +1454,8 @@ class Emit:
             raise Unsupported("Err of a computed value")
         if path == ["AsciiDecLit", "new"]:
             path, n = ["lit_new"], "lit_new"
+        if path == ["Self", "from_str"] and self.self_ty == "Decimal" and "decimal_from_str" in self.sigs:
+            path, n = ["decimal_from_str"], "decimal_from_str"
         if n not in self.sigs and n not in EXTERNAL:
             raise Unsupported(f"call {n}")
         ptys = (self.sigs.get(n) or EXTERNAL[n])[0]
@@ -2064,7 +2089,7 @@ class Emit:
 
 
 # ----------------------------------------------------------------------------- driver
-GROUP_IMPORTS = {"KTls": [], "KFormat": ["Fpdec.Gen.KDivRounded", "Fpdec.Gen.Consts", "Fpdec.Model.Format"], "KParse": ["Fpdec.Gen.KSwar", "Fpdec.Gen.Consts", "Fpdec.Model.Parser"], "KMagn": ["Fpdec.Gen.KLog", "Fpdec.Gen.Consts", "Fpdec.Model.Decimal"], "KRatio": ["Fpdec.Gen.KPow", "Fpdec.Model.Decimal"], "KPow": ["Fpdec.Gen.Consts"], "KDivRounded": ["Fpdec.Gen.KRound", "Fpdec.Gen.KPow", "Fpdec.Model.Core"],
+GROUP_IMPORTS = {"KMisc": ["Fpdec.Gen.KCmp", "Fpdec.Gen.KFromStr", "Fpdec.Gen.KIntoFloat", "Fpdec.Model.Float"], "KTls": [], "KFormat": ["Fpdec.Gen.KDivRounded", "Fpdec.Gen.Consts", "Fpdec.Model.Format"], "KParse": ["Fpdec.Gen.KSwar", "Fpdec.Gen.Consts", "Fpdec.Model.Parser"], "KMagn": ["Fpdec.Gen.KLog", "Fpdec.Gen.Consts", "Fpdec.Model.Decimal"], "KRatio": ["Fpdec.Gen.KPow", "Fpdec.Model.Decimal"], "KPow": ["Fpdec.Gen.Consts"], "KDivRounded": ["Fpdec.Gen.KRound", "Fpdec.Gen.KPow", "Fpdec.Model.Core"],
                  "KDecDiv": ["Fpdec.Gen.KDivRounded"], "KDecMul": ["Fpdec.Gen.KDivRounded", "Fpdec.Model.Decimal"], "KNorm": [], "KFromStr": ["Fpdec.Gen.KPow", "Fpdec.Gen.Consts", "Fpdec.Model.Parser"], "KIntoFloat": ["Fpdec.Gen.Consts", "Fpdec.Model.Decimal"], "KIntOps": ["Fpdec.Gen.KDecDiv", "Fpdec.Gen.KNorm", "Fpdec.Gen.Consts", "Fpdec.Model.Decimal"], "KForward": ["Fpdec.Gen.KAddSub", "Fpdec.Gen.KDecOps"], "KIntConv": ["Fpdec.Gen.KPow", "Fpdec.Model.Decimal"], "KCmp": ["Fpdec.Gen.KPow", "Fpdec.Model.Decimal"], "KAddSub": ["Fpdec.Gen.KPow", "Fpdec.Model.Decimal"], "KDecUnops": ["Fpdec.Gen.KUnops", "Fpdec.Gen.KPow", "Fpdec.Model.Decimal"], "KDecOps": ["Fpdec.Gen.KDecDiv", "Fpdec.Gen.KDecMul", "Fpdec.Gen.KNorm", "Fpdec.Gen.Consts", "Fpdec.Model.Decimal"],
                  "KDecRound": ["Fpdec.Gen.KDivRounded", "Fpdec.Model.Decimal"],
                  "KFloat": ["Fpdec.Gen.KNorm", "Fpdec.Gen.Consts", "Fpdec.Model.Core", "Fpdec.Model.Decimal"], "KRem": ["Fpdec.Gen.KPow"], "KDecRem": ["Fpdec.Gen.KRem", "Fpdec.Model.Decimal"],
@@ -2225,6 +2250,16 @@ KERNELS = [
     ("KParse", "fpdec-core/src/parser.rs", "accum_coeff", "AsciiDecLit", {"as": "lit_accum_coeff"}),
     ("KParse", "fpdec-core/src/parser.rs", "accum_exp", "AsciiDecLit", {"as": "lit_accum_exp"}),
     ("KParse", "fpdec-core/src/parser.rs", "str_to_dec", None, {"err": "ParseDecimalError"}),
+    ("KMisc", "src/binops/cmp.rs", "cmp", "Decimal", {"as": "decimal_cmp"}),
+    ("KMisc", "src/lib.rs", "default", "Decimal", {"as": "decimal_default"}),
+    ("KMisc", "src/from_str.rs", "try_from", "Decimal", {"as": "decimal_try_from_str", "err": "ParseDecimalError", "occ": 0,
+                                                          "ret": ("Result", "Decimal", "ParseDecimalError")}),
+    ("KMisc", "src/from_str.rs", "try_from", "Decimal", {"as": "decimal_try_from_string", "err": "ParseDecimalError", "occ": 1,
+                                                          "ret": ("Result", "Decimal", "ParseDecimalError")}),
+    ("KMisc", "src/into_float.rs", "from", "f64", {"as": "f64_from", "occ": 0, "ret": "u64",
+                                                    "rewrite": [(r"(impl From<Decimal> for f64 \{.*?)<Self as Float>::from_decimal\(d\)", r"\1f64_from_decimal(d)")]}),
+    ("KMisc", "src/into_float.rs", "from", "f32", {"as": "f32_from", "occ": 1, "ret": "u64",
+                                                    "rewrite": [(r"(impl From<Decimal> for f32 \{.*?)<Self as Float>::from_decimal\(d\)", r"\1f32_from_decimal(d)")]}),
     ("KFormat", "src/format.rs", "from", "String", {"as": "string_from_decimal"}),
     ("KFormat", "src/format.rs", "fmt", "Decimal", {"as": "decimal_debug_fmt", "macro": ("impl_debug", 0, 0, None), "ret": "Written"}),
     ("KFormat", "src/format.rs", "fmt", "Decimal", {"as": "decimal_display_fmt", "ret": "Written", "occ": 1}),
